@@ -85,7 +85,7 @@ def rand_dag(rng, n_in=None, n_gates=None, consts=0.15, xconst=0.0, max_fanin=4,
                 continue
             if g.nodes[n]["type"] == "input" and rng.random() > out_is_input and g.number_of_nodes() > 1:
                 # unloaded input: give it a load rather than leaving it dangling
-                tgt = [m for m in g.nodes if g.nodes[m]["type"] in GATESN]
+                tgt = [m for m in g.nodes if g.nodes[m]["type"] in GATESN and g.in_degree(m) < max_fanin]
                 if tgt:
                     g.add_edge(n, rng.choice(tgt))
                     continue
